@@ -47,3 +47,70 @@ def class_name(typ):
     if isinstance(typ, tuple):
         return "List"
     return CLASS_OF[typ]
+
+
+def welltyped(t, schema_of):
+    """True when t is well-typed w.r.t. gen.scalar.FUNCS (used to keep shrunk witnesses
+    inside the typed fragment).  schema_of(name) -> type or None."""
+    from ..gen.scalar import FUNCS, LIST_FUNCS
+
+    def compat(want, got):
+        if want == got:
+            return True
+        if want in ("int", "float") and got in ("int", "float"):
+            return True
+        if got == "null":
+            return True
+        return False
+
+    def ty(n):
+        k = n[0]
+        if k == "lit":
+            return n[1]
+        if k == "id":
+            return schema_of(n[1])
+        if k == "list":
+            inner = [ty(x) for x in n[1]]
+            if any(i is False for i in inner):
+                return False
+            return ("list", inner[0])
+        if k == "bool":
+            return "bool" if ty(n[2]) == "bool" and ty(n[3]) == "bool" else False
+        if k == "un":
+            x = ty(n[2])
+            if n[1] == "not":
+                return "bool" if x == "bool" else False
+            return x if x in ("int", "float") else False
+        if k == "cmp":
+            l, r = ty(n[2]), ty(n[3])
+            if l is False or r is False or l is None or r is None:
+                return False
+            if n[1] == "in":
+                return "bool" if isinstance(r, tuple) and compat(r[1], l) else False
+            if isinstance(l, tuple) or isinstance(r, tuple):
+                return False
+            if l == "null":
+                return False
+            return "bool" if compat(l, r) else False
+        if k == "bin":
+            l, r = ty(n[2]), ty(n[3])
+            if l in ("int", "float") and r in ("int", "float"):
+                return "float" if "float" in (l, r) else "int"
+            if l in ("datetime", "date") and r == "duration" and n[1] in ("add", "sub"):
+                return l
+            return False
+        if k == "call":
+            args = [ty(a) for a in n[2]]
+            if any(a is False or a is None for a in args):
+                return False
+            for sigs in (FUNCS.get(n[1], []), LIST_FUNCS.get(n[1], [])):
+                for want, ret in sigs:
+                    if len(want) == len(args) and all(
+                            (w == a) or (not isinstance(w, tuple) and not isinstance(a, tuple)
+                                         and compat(w, a))
+                            or (isinstance(w, tuple) and isinstance(a, tuple))
+                            for w, a in zip(want, args)):
+                        return ret
+            return False
+        return False
+    return ty(t) not in (False, None)
